@@ -560,16 +560,27 @@ func H_C15_datastream() {
 	}
 }
 
-// H_C15_frame: one frame for the announced file (right key), with arbitrary index, length, CRC and up
-// to 5 payload bytes, after a FileBegin whose chunk size is 4, 0 or huge; the receiver's main loop may
-// be preempted once at a select, so that the frame can be processed between two control records.
-func H_C15_frame() {
-	size := []int{1, 5}[vChoice("sizeIdx", 2)]
+// H_C15_frame: one frame with arbitrary index, length, CRC and up to 5 payload bytes for the announced
+// file after a FileBegin whose chunk size is 4 or 0, for a file of 0, 1, 4 (deep: 5) bytes.
+// H_C15_frame_stray: the file's own frames come first, so that the arbitrary frame - for the same file
+// or for a key nobody announced - meets a file that is already complete. The receiver's main loop may be preempted once at a select, so
+// that the frame can be processed between two control records. Beyond no panic / no hang: a frame whose
+// index is not below the file's chunk count, whose length is 0 or above the chunk size, is malformed and
+// must make the receiver report an error; and a receiver that reports success has written a file of the
+// announced length.
+func H_C15_frame()              { vC15Frame([]int{1, 0, 4}, false, 0) }
+func H_C15_frame_deep()         { vC15Frame([]int{1, 5, 0, 4}, false, 2) }
+func H_C15_frame_stray()        { vC15Frame([]int{1}, true, 0) }
+func H_C15_frame_stray_resume() { vC15Frame([]int{1, 5}, true, 1) }
+
+// resumeMode: 0 off, 1 on, 2 either
+func vC15Frame(sizes []int, stray bool, resumeMode int) {
+	size := sizes[vChoice("sizeIdx", len(sizes))]
 	item := manifest.FileItem{RelPath: "f", Size: int64(size), ID: "id"}
 	m := manifest.Manifest{Items: []manifest.FileItem{item}, TotalBytes: int64(size), FileCount: 1}
 	key := fileKeyForItem(item)
 	cs := uint32(4)
-	if vBool("chunkSizeZero") {
+	if !stray && vBool("chunkSizeZero") {
 		cs = 0
 		vTag("chunkSize=0")
 	}
@@ -584,20 +595,75 @@ func H_C15_frame() {
 	control.buf = append(control.buf, HashAlgCRC32C, 0, 0, 0, 0, 0, 0, 0, 0, 0, 0, 0, 0)
 	_ = writeFileEnd(control, FileEnd{StreamID: key})
 	_ = writeControlEnd(control)
+	data := &vMemStream{}
+	total := 0
+	if cs > 0 {
+		total = (size + 3) / 4
+	}
+	complete := false
+	if stray {
+		// the file's own frames, well-formed, ahead of the arbitrary one
+		complete = true
+		vTag("complete-first")
+		src := vBytes("src", size)
+		for i := 0; i < total; i++ {
+			lo, hi := i*4, i*4+4
+			if hi > size {
+				hi = size
+			}
+			h := make([]byte, dataChunkHeaderLen)
+			binary.BigEndian.PutUint64(h[0:8], key)
+			binary.BigEndian.PutUint32(h[8:12], uint32(i))
+			binary.BigEndian.PutUint32(h[12:16], uint32(hi-lo))
+			binary.BigEndian.PutUint32(h[16:20], crc32.Checksum(src[lo:hi], crc32cTable))
+			data.buf = append(append(data.buf, h...), src[lo:hi]...)
+		}
+	}
+	fkey := key
+	if stray && vBool("unknownKey") {
+		fkey = vU64("frameKey")
+		vAssume(fkey != key)
+		vTag("unknown-key")
+	}
+	index, length := vU32("index"), vU32("length")
 	hdr := make([]byte, dataChunkHeaderLen)
-	binary.BigEndian.PutUint64(hdr[0:8], key)
-	binary.BigEndian.PutUint32(hdr[8:12], vU32("index"))
-	binary.BigEndian.PutUint32(hdr[12:16], vU32("length"))
-	binary.BigEndian.PutUint32(hdr[16:20], vU32("crc"))
-	data := &vMemStream{buf: append(hdr, vBytes("payload", []int{0, 1, 5}[vChoice("payloadLenIdx", 3)])...)}
+	binary.BigEndian.PutUint64(hdr[0:8], fkey)
+	binary.BigEndian.PutUint32(hdr[8:12], index)
+	binary.BigEndian.PutUint32(hdr[12:16], length)
+	payload := vBytes("payload", []int{0, 1, 5}[vChoice("payloadLenIdx", 3)])
+	// the receiver only compares the CRC field with the CRC of what it read: matching or not are the two classes
+	crc := vU32("crc")
+	if int64(length) <= int64(len(payload)) {
+		if vBool("crcMatches") {
+			crc = crc32.Checksum(payload[:length], crc32cTable)
+		} else {
+			vAssume(crc != crc32.Checksum(payload[:length], crc32cTable))
+		}
+	}
+	binary.BigEndian.PutUint32(hdr[16:20], crc)
+	data.buf = append(append(data.buf, hdr...), payload...)
 	data.gateAt, data.gateDelay = 0, 0
 	conn := &vScriptConn{streams: []Stream{control, data}}
-	_, err := RecvManifestMultiStream(vContext("ctx", false), conn, vTempDir()+"/out", Options{NoRootDir: true, Resume: vBool("resume")})
+	out := vTempDir() + "/out"
+	resume := resumeMode == 1
+	if resumeMode == 2 {
+		resume = vBool("resume")
+	}
+	_, err := RecvManifestMultiStream(vContext("ctx", false), conn, out, Options{NoRootDir: true, Resume: resume})
 	if err != nil {
 		vCover("C15 frame: rejected")
-	} else {
-		vCover("C15 frame: accepted")
+		return
 	}
+	vCover("C15 frame: accepted")
+	if fkey == key && !complete && total > 0 {
+		// the file cannot have completed without this frame, and it was the first one the receiver saw for
+		// it (not a late duplicate). A file without chunks completes by itself: the receiver may report
+		// success without ever having read the frame - there only the file's length is judged.
+		vAssert(index < uint32(total), "a frame whose index is not below the file's chunk count is rejected")
+		vAssert(length != 0 && length <= cs, "a frame whose length is 0 or above the chunk size is rejected")
+	}
+	st, serr := os.Stat(out + "/f")
+	vAssert(serr == nil && st.Size() == int64(size), "a receiver that reports success has written a file of the announced length")
 }
 
 // ---------------------------------------------------------------------------------------------
@@ -616,6 +682,12 @@ func (c *vSendConn) OpenStream(ctx context.Context) (Stream, error) {
 	if len(c.streams) == 0 {
 		s.buf = vSenderAcks
 		s.stall = vSenderPeerSilent
+		s.onWrite = vSenderControlWatch
+	} else if vSenderSlowData > 0 {
+		s.slowWrite = 3
+		if len(c.streams) == vSenderSlowData {
+			s.slowWrite = 40
+		}
 	}
 	c.streams = append(c.streams, s)
 	return s, nil
@@ -629,7 +701,7 @@ func (c *vSendConn) Close() error         { return nil }
 var vSenderAcks []byte
 var vSenderPeerSilent bool
 
-func H_C02_sender()        { vC02Sender([]int{0, 5}, false) }
+func H_C02_sender()        { vC02Sender([]int{0, 4, 5}, false) }
 func H_C02_sender_deep()   { vC02Sender([]int{0, 1, 4, 5, 8}, false) }
 func H_C02_sender_resume() { vC02Sender([]int{5}, true) }
 
@@ -660,7 +732,11 @@ func vC02Sender(sizes []int, resume bool) {
 	case 0:
 		_ = writeFileDone(acks, FileDone{StreamID: key, OK: true})
 	case 1:
-		_ = writeFileDone(acks, FileDone{StreamID: key, OK: false, ErrMsg: "x"})
+		reason := "x"
+		if vBool("failedWithoutReason") {
+			reason = ""
+		}
+		_ = writeFileDone(acks, FileDone{StreamID: key, OK: false, ErrMsg: reason})
 	}
 	if resume && vBool("reportArrives") {
 		// the receiver's answer to the resume request: nothing present yet
@@ -713,3 +789,55 @@ func vC02Sender(sizes []int, resume bool) {
 		vAssert(seen[i], "every chunk of the file is sent")
 	}
 }
+
+// ---------------------------------------------------------------------------------------------
+// C17 (whole sender, two workers): one file of two chunks, two data streams, so that both workers can
+// hold a chunk of the same file at the same time. At the moment the FileEnd record goes onto the control
+// stream, every chunk of the file must already be on a data stream completely - the receiver takes
+// FileEnd as "nothing more will come".
+func H_C17_sender_end() {
+	// natively the run is repeated with either data stream as the slower one (and a few times each: which
+	// worker picks up the first chunk is the Go scheduler's choice); the engine explores schedules itself
+	for iter := 0; iter < vRepeat(6); iter++ {
+		vResetInputs()
+		vC17SenderEndOnce(1 + iter%2)
+	}
+}
+
+func vC17SenderEndOnce(slow int) {
+	size := []int{5, 8}[vChoice("sizeIdx", 2)]
+	src := vBytes("src", size)
+	dir := vTempDir()
+	vTempFile("src/f", src)
+	item := manifest.FileItem{RelPath: "f", Size: int64(size), ID: "id"}
+	m := manifest.Manifest{Root: "src", Items: []manifest.FileItem{item}, TotalBytes: int64(size), FileCount: 1}
+	key := fileKeyForItem(item)
+	acks := &vMemStream{}
+	_ = writeFileDone(acks, FileDone{StreamID: key, OK: true})
+	vSenderAcks = acks.buf
+	vSenderPeerSilent = true // after its acknowledgement the receiver keeps the control stream open
+	conn := &vSendConn{}
+	want := 2*dataChunkHeaderLen + size
+	atEnd := -1
+	vSenderControlWatch = func(p []byte) {
+		if len(p) == 1 && p[0] == controlTypeFileEnd && atEnd < 0 {
+			atEnd = 0
+			for _, st := range conn.streams[1:] {
+				atEnd += len(st.out)
+			}
+		}
+	}
+	vSenderSlowData = slow // natively one of the two data streams is slower than the other
+	err := SendManifestMultiStream(vContext("ctx", false), conn, dir+"/src", m, Options{ChunkSize: 4, ParallelFiles: 2})
+	vSenderControlWatch, vSenderSlowData = nil, 0
+	if err != nil {
+		vCover("C17 sender-end: failure")
+		return
+	}
+	vAssert(atEnd >= 0, "a successful sender wrote FileEnd")
+	vAssert(atEnd == want, "FileEnd goes out only after every chunk of the file was written to its data stream")
+	vCover("C17 sender-end: success")
+}
+
+var vSenderControlWatch func(p []byte)
+var vSenderSlowData int
